@@ -140,6 +140,18 @@ def split_extensions(schema, tape):
                   not any((a.type[0] == "NN" and a.default is ABSENT) for a in d.args.values())]
             if ds:
                 exts.append(Ext(k, name, "extend scalar %s @%s\n" % (name, ds[0].name)))
+    # directive-only extensions of every kind (a type may be extended several times)
+    kw = {"OBJECT": "type", "INTERFACE": "interface", "ENUM": "enum", "INPUT_OBJECT": "input", "UNION": "union", "SCALAR": "scalar"}
+    for name, td in list(base.types.items()):
+        if len(td.directives) >= 1 and t.chance(30) and not (td.kind == "SCALAR" and not td.custom):
+            last = td.directives[-1]
+            if last.name not in {u.name for u in td.directives[:-1]} and not any(e.target == name and ("@" + last.name) in e.text for e in exts):
+                td.directives.pop()
+                exts.append(Ext(td.kind, name, "extend %s %s%s\n" % (kw[td.kind], name, dirs_str([last]))))
+    sd = [d for d in base.directives.values() if "SCHEMA" in d.locations and
+          not any((a.type[0] == "NN" and a.default is ABSENT) for a in d.args.values())]
+    if sd and t.chance(50):
+        exts.append(Ext("SCHEMA", None, "extend schema @%s\n" % sd[0].name))
     if base.mutation and base.mutation != "Mutation" and t.chance(60):
         m = base.mutation
         base.mutation = None
